@@ -22,8 +22,8 @@ TEXTS = {
    "Long generated bid sequences around the remainder and allowance boundaries; accept/reject must agree with the predictive rule and the published remainder must equal offered minus accepted after every operation. Exploration."),
  "C07": T("K+A", "DESIGN.md 3.C07", "stateful PBT + exhaustive single-fault injection per block (bank send restriction) + application-level FinalizeBlock runs",
    "Every generated block (incl. blocks after terminal states, empty books, extreme class) must process without error or panic at module and FinalizeBlock level; for every block with m<=16 transfers ALL m single-transfer faults are injected (sampled above) and each must surface as an error. Fault enumeration is exhaustive per explored block, the set of blocks is sampled.", NOTE_A),
- "C08": T("K", "DESIGN.md 3.C08", "model-based stateful PBT: predictive lifecycle on boundary instants",
-   "Block times exactly on, 1ns around and far beyond every start/end/release instant; each status after each block/message must equal the predicted one (one transition per auction per block). Exploration."),
+ "C08": T("K+A", "DESIGN.md 3.C08", "model-based stateful PBT: predictive lifecycle on boundary instants, at keeper level and through FinalizeBlock",
+   "Block times exactly on, 1ns around and far beyond every start/end/release instant; each status after each block/message must equal the predicted one (one transition per auction per block); the same prediction is applied to empty blocks delivered through FinalizeBlock on a fresh application (block hook wiring). Exploration.", NOTE_A),
  "C09": T("K+D", "DESIGN.md 3.C09", "PBT with reference arithmetic for instalments and a once-only release schedule (histories + direct schedules up to 100 instalments)",
    "Instalment amounts, sums, release times, per-block payouts and released flags compared with exact integer arithmetic for generated schedules/proceeds/block times. Exploration."),
  "C10": T("K+A", "DESIGN.md 3.C10", "stateful PBT in a test binary that links the shipped binary's package graph: every MsgAddAllowedBidder (router and signed tx) must be rejected; ledger check of every stored bid",
